@@ -221,7 +221,11 @@ def run_rendered(desc):
     if layout.get("index"):
         cl.append("dims-in-index")
     with tempfile.TemporaryDirectory(prefix="verif_c11_") as tmp:
-        if csv:
+        if desc.get("noheader"):
+            # a file without a header line, read the default way: the first data row ends up as column names
+            df, _ = frames.through_csv(df, tmp, header=False)
+            cl.append("header-row-consumed-as-data")
+        elif csv:
             df, _ = frames.through_csv(df, tmp)
             cl.append("csv")
         try:
@@ -269,6 +273,13 @@ def rendered_cases(draw):
             pass
     mode = "coded"
     desc = {"universe": U, "letters": letters, "layout": layout, "csv": csv, "perm_seed": draw(st.one_of(st.none(), st.integers(0, 1000))), "mode": mode}
+    # headerless file whose first row is consumed as column names (long format, dims found by items)
+    if wide is None and not junk and not layout["index"] and not layout["drop_single"] and not any(is_untyped_int(U, l) for l in letters) and draw(st.integers(0, 5)) == 0:
+        layout["col_order"] = None
+        layout["header"] = {l: "junk" for l in letters}
+        desc["noheader"] = True
+        desc["csv"] = True
+        return desc
     # values that coincide with a named int dimension's items
     intdims = [l for l in letters if build.udim(U, l).get("dtype") == "int" or is_untyped_int(U, l)]
     if intdims and not junk and wide is None and draw(st.integers(0, 4)) == 0:
